@@ -14,7 +14,7 @@ for i in $(seq 1 $N); do
     awk -v n=$N -v i=$i 'NR % n == i % n' /tmp/neutral_cross_${WT_PREFIX:-repo-x}.list | while read id; do
       git -C $wt checkout -q -- . ; git -C $wt clean -qfd crates
       git -C $wt apply /verif/neutral/$id/patch.diff 2>/dev/null || { echo "$id: patch does not apply"; continue; }
-      for p in C01 C02 C03 C04 C05 C06 C07 C09 C10 C11 C12 C13 C14 C15 C16 C17 C18 C19 C20; do
+      for p in ${PROPS:-C01 C02 C03 C04 C05 C06 C07 C09 C10 C11 C12 C13 C14 C15 C16 C17 C18 C19 C20}; do
         ./check $p 2>&1 | grep -E "VIOLATED|INCONCLUSIVE " | cut -c1-300 | sed "s/^/$id [$p]: /"
       done
       echo "$id done"
